@@ -86,6 +86,9 @@ MUTANTS = [
      "                src.b ** 2 + (src.psf_b) ** 2 * (1 - 1 / ratio ** 2)",
      "                src.b ** 2 + (src.psf_a) ** 2 * (1 - 1 / ratio ** 2)",
      "C19-R7"),
+    ("unit vectors in single precision (seed C19c)", "AegeanTools/cluster.py",
+     "    X = np.hstack([x[:, None], y[:, None], z[:, None]])",
+     "    X = np.hstack([x[:, None], y[:, None], z[:, None]]).astype(np.float32)", "C19-R7"),
 ]
 TWINS = [
     ("key via reverse", "AegeanTools/cluster.py",
@@ -349,6 +352,19 @@ def run(ctx):
                                     "cluster.norm_dist", "cluster.sky_dist"},
                     kinds={"call"}, what="unit contracts in cluster.py",
                     floor=None)
+    # ---------------------------------------------------------------- R7
+    from .. import precision
+    precision.rule(
+        ctx, prog, "C19-R7",
+        [lambda sh: sh.startswith("cluster.regroup") or sh in (
+            "cluster.sky_dist", "cluster.norm_dist",
+            "cluster.pairwise_ellpitical_binary"),
+         lambda sh: sh.startswith("angle_tools.")],
+        "precision: positions, unit vectors and separations are handled in "
+        "double precision throughout the grouping (no float32 / float16 "
+        "cast): single precision snaps positions to a ~10 mas grid, which "
+        "links or separates sources regardless of the linking length",
+        "a dtype narrower than float64 is used", floor=5)
     # ---------------------------------------------------------------- R6
     ctx.rule("C19-R6", "partition: group k = the sources whose label equals "
              "the k-th unique label")
